@@ -117,7 +117,7 @@ theorem NC_arrays : ∀ n ts, NC (arrays n ts) := by
     repeat (first | exact ih _ | apply NC_expression | nc_step)
 
 theorem NC_decl (env : Env) : ∀ n,
-    (∀ ts, NC (declaration env n ts)) ∧ (∀ ts, NC (paramList env n ts)) := by
+    (∀ ts, NC (declaration env n ts)) ∧ (∀ names ts, NC (paramList env n names ts)) := by
   intro n
   induction n with
   | zero => refine ⟨?_, ?_⟩ <;> intros <;> simp [declaration, paramList]
@@ -125,10 +125,10 @@ theorem NC_decl (env : Env) : ∀ n,
     obtain ⟨h1, h2⟩ := ih
     refine ⟨?_, ?_⟩
     · intro ts; unfold declaration
-      repeat (first | exact h2 _ | apply NC_declSpec | apply NC_declarator | apply NC_arrays
+      repeat (first | exact h2 _ _ | apply NC_declSpec | apply NC_declarator | apply NC_arrays
                     | apply NC_attributeP | apply NC_initializer | nc_step)
-    · intro ts; unfold paramList
-      repeat (first | exact h1 _ | exact h2 _ | nc_step)
+    · intro names ts; unfold paramList
+      repeat (first | exact h1 _ | exact h2 _ _ | nc_step)
 
 theorem NC_declaration (env n ts) : NC (declaration env n ts) := (NC_decl env n).1 ts
 
